@@ -5,10 +5,12 @@ compiled code), spec/lib2/HostText.tla (texts and the expected renderings) and s
   1. TLC model-checks the marshalling protocol (C36Abi.tla, modes "spec" and "code") for all types up to a depth;
   2. TLC enumerates (C36X.tla) / samples (C36.tla) host-function signatures with argument values and emits, per case,
      the `#host` declarations, the calling Abra program and the expected observation;
-  3. harness/hostgen is built once per run: its build.rs runs the real generator
-     abra_core::generate_host_function_enum on the declarations of all cases, its main.rs decodes every host call
+  3. harness/hostgen is built once per chunk of <= ~800 (quick) / ~520 (thorough) cases: its build.rs runs the real
+     generator abra_core::generate_host_function_enum on the declarations of the chunk, its main.rs decodes every host call
      with the generated HostFunctionArgs::from_vm, logs it, and answers with the generated HostFunctionRet::into_vm;
   4. every case runs in its own process; the observation {status, out, host} is compared with the expectation.
+Everything runs one after the other (TLC with 1 worker and -Xmx3g; VERIF_JOBS case processes side by side, default 4).
+Replay of a finding:  python3 driver/props/c36.py --replay work/C36/replay_<id>.json
 """
 import concurrent.futures
 import json
@@ -17,7 +19,6 @@ import re
 import shutil
 import subprocess
 import sys
-import threading
 import time
 
 if __name__ == "__main__":
@@ -27,6 +28,8 @@ import vlib
 HOSTGEN = os.path.join(vlib.HARNESS_DIR, "hostgen")
 HOSTGEN_BIN = os.path.join(HOSTGEN, "target", "debug", "abra_hostgen")
 PROPS = os.path.join(vlib.SPEC, "props")
+JOBS = max(1, int(os.environ.get("VERIF_JOBS", "4")))      # case processes run side by side
+XMX = "3g"
 
 
 def build_hostgen(src):
@@ -80,38 +83,26 @@ def write_sources(src, cases):
     return len(seen)
 
 
-def execute(src, cases, jobs=12, binary=None):
+def execute(src, cases, jobs=JOBS, binary=None):
     with concurrent.futures.ThreadPoolExecutor(max_workers=jobs) as ex:
         return list(ex.map(lambda c: run_one(src, c, binary=binary), cases))
 
 
 def build_and_run(wd, cases, chunk=500):
-    """one hostgen build per chunk of cases (the host file of a chunk declares every function of the chunk);
-    the cases of a chunk run, each in its own process, while the next chunk is being built"""
-    chunks = [cases[i:i + chunk] for i in range(0, len(cases), chunk)]
-    obs, build_s, ntypes = [None] * len(chunks), 0.0, 0
-    t_run = [0.0]
-    runner = concurrent.futures.ThreadPoolExecutor(max_workers=1)
-    futs = []
-
-    def run_chunk(i, src, binary):
+    """one hostgen build per chunk of cases (the host file of a chunk declares every function of the chunk), then
+    the cases of the chunk run, each in its own process"""
+    nch = max(1, -(-len(cases) // chunk))
+    size = -(-len(cases) // nch)
+    chunks = [cases[i:i + size] for i in range(0, len(cases), size)]
+    obs, build_s, run_s, ntypes = [], 0.0, 0.0, 0
+    for i, ch in enumerate(chunks):
+        src = os.path.join(wd, "chunk%d" % i, "src")
+        ntypes += write_sources(src, ch)
+        build_s += build_hostgen(src)
         t0 = time.time()
-        obs[i] = execute(src, chunks[i], binary=binary)
-        t_run[0] += time.time() - t0
-    try:
-        for i, ch in enumerate(chunks):
-            cdir = os.path.join(wd, "chunk%d" % i)
-            src = os.path.join(cdir, "src")
-            ntypes += write_sources(src, ch)
-            build_s += build_hostgen(src)
-            binary = os.path.join(cdir, "abra_hostgen")
-            shutil.copy(HOSTGEN_BIN, binary)
-            futs.append(runner.submit(run_chunk, i, src, binary))
-        for f in futs:
-            f.result()
-    finally:
-        runner.shutdown(wait=True)
-    return [o for ch in obs for o in ch], build_s, t_run[0], ntypes, len(chunks)
+        obs += execute(src, ch)
+        run_s += time.time() - t0
+    return obs, build_s, run_s, ntypes, len(chunks)
 
 
 def shape(c):
@@ -119,48 +110,44 @@ def shape(c):
     return re.sub(r"\b(Sa|Ea|hf|hx|Hf|Hx)\d+", r"\1", c["decl"] + "\n" + c["text"])
 
 
-def protocol_check(tier, results):
+def protocol_check(tier):
     """TLC model-checks HostAbi: all laws in mode "spec"; in mode "code" the layout laws fail exactly on the defect family"""
     suffix = "_d3" if tier == "thorough" else ""
+    results = {}
+    for mode, cfg in (("spec", "C36Abi%s.cfg" % suffix), ("code", "C36Abi_code%s.cfg" % suffix)):
+        results[mode] = vlib.tlc(os.path.join(PROPS, "C36Abi.tla"), cfg=os.path.join(PROPS, cfg), timeout=2700, xmx=XMX)
+    return results
 
-    def one(mode, cfg):
-        results[mode] = vlib.tlc(os.path.join(PROPS, "C36Abi.tla"), cfg=os.path.join(PROPS, cfg), timeout=1500,
-                                 metadir=os.path.join(vlib.WORK, "_meta", "C36Abi_%s_%d" % (mode, os.getpid())))
-    with concurrent.futures.ThreadPoolExecutor(max_workers=2) as ex:
-        for f in [ex.submit(one, "spec", "C36Abi%s.cfg" % suffix), ex.submit(one, "code", "C36Abi_code%s.cfg" % suffix)]:
-            f.result()
+
+def generate(prop, module, simulate=None, seed=None):
+    """cases written by a generator spec, one JSON file per case in OUTDIR (as vlib.gen_simulate / gen_enumerate, with a heap bound)"""
+    outdir = os.path.join(vlib.WORK, prop, "gen_" + os.path.basename(module)[:-4])
+    shutil.rmtree(outdir, ignore_errors=True)
+    os.makedirs(outdir, exist_ok=True)
+    res = vlib.tlc(module, simulate=simulate, depth=3 if simulate else None, seed=seed, env={"OUTDIR": outdir},
+                   timeout=1800, xmx=XMX)
+    vlib.tlc_ok(res, module)
+    return vlib.load_case_files(outdir), res
 
 
 def run(prop, tier, seed):
     rep = vlib.Report(prop, tier, seed, "translation_validation")
     wd = vlib.workdir(prop)
 
-    # 1. protocol model checking, in the background while the cases are generated and run
-    mc = {}
-    mc_err = []
+    # 1. protocol model checking
+    mc = protocol_check(tier)
 
-    def bg():
-        try:
-            protocol_check(tier, mc)
-        except Exception as e:  # noqa
-            mc_err.append(e)
-    th = threading.Thread(target=bg)
-    th.start()
+    # 2. cases from TLC
+    xcases, xres = generate(prop, os.path.join(PROPS, "C36X.tla"))
+    n = 80 if tier == "quick" else 1200
+    rcases, rres = generate(prop, os.path.join(PROPS, "C36.tla"), simulate=n, seed=seed)
+    cases = xcases + rcases
+    if len(xcases) < 100 or len(rcases) < n:
+        raise vlib.ToolError("generators produced %d + %d cases" % (len(xcases), len(rcases)))
 
-    try:
-        # 2. cases from TLC
-        xcases, xres = vlib.gen_enumerate(prop, os.path.join(PROPS, "C36X.tla"))
-        n = 100 if tier == "quick" else 2000
-        rcases, rres = vlib.gen_simulate(prop, os.path.join(PROPS, "C36.tla"), n, seed)
-        cases = xcases + rcases
-        if len(xcases) < 100 or len(rcases) < n:
-            raise vlib.ToolError("generators produced %d + %d cases" % (len(xcases), len(rcases)))
-        # 3. the real binding generator + rustc on its output, 4. run
-        obs, build_s, run_s, ntypes, nchunks = build_and_run(wd, cases, 600 if tier == "quick" else 500)
-    finally:
-        th.join()
-    if mc_err:
-        raise mc_err[0]
+    # 3. the real binding generator + rustc on its output, 4. run
+    obs, build_s, run_s, ntypes, nchunks = build_and_run(wd, cases, 800 if tier == "quick" else 520)
+
     pairs = {}
     for mode, res in mc.items():
         if res.violation:
